@@ -1134,4 +1134,158 @@ theorem decodeX_verified (H : Bytes → Bytes) (buf key : Bytes) (d : Decoded) (
       · simp at h1
       · exact h1 hk
 
+/-! ## sample message, HMAC characterisation, defect witnesses -/
+
+theorem wf_example : WFMsg exampleMsg := by constructor <;> decide +kernel
+theorem strs_example : StrsOK exampleMsg := by decide
+
+theorem sha1_length (x : Bytes) : (sha1 x).length = 20 := by
+  simp [sha1, Sha1.hash, Sha1.digestOf, ofU32be]
+
+theorem optAll_map_qtStr (o : Option Bytes) (h : optAll o StrOK) : o.map qtStr = o := by
+  cases o with
+  | none => rfl
+  | some v => simp only [Option.map_some]; congr 1
+
+theorem view_eq_self (m : Msg) (h : StrsOK m) : view m = m := by
+  obtain ⟨h1, h2, h3, h4⟩ := h
+  unfold view
+  rw [optAll_map_qtStr _ h2, optAll_map_qtStr _ h3, optAll_map_qtStr _ h4]
+  have : qtStr m.errorPhrase = m.errorPhrase := h1
+  rw [this]
+
+/-- for every key the code's HMAC is the RFC 2104 HMAC under the key cut to one block -/
+theorem hmacCode_eq_rfc_take (H : Bytes → Bytes) (B : Nat) (k t : Bytes) :
+    hmacCode H B k t = hmacRfc H B (k.take B) t := by
+  by_cases h : k.length ≤ B
+  · rw [List.take_of_length_le h]; exact hmacCode_eq_rfc H B k t h
+  · have hl : (k.take B).length = B := by simp; omega
+    conv => lhs; rw [← List.take_append_drop B k]
+    rw [hmacCode_tail H B _ _ t hl]
+    exact hmacCode_eq_rfc H B _ t (by omega)
+
+theorem encode_congr_key (H : Bytes → Bytes) (m : Msg) (k k' : Bytes) (fp : Bool) (hk : k ≠ []) (hk' : k' ≠ [])
+    (h : ∀ t, hmacCode H 64 k t = hmacCode H 64 k' t) : encode H m k fp = encode H m k' fp := by
+  simp only [encode, withMI, hk, hk', if_false, h]
+
+/-- the last turn of the loop: an attribute that `attrStep` lets pass and whose announced length reaches or
+passes the end of the body ends the parse successfully — nothing compares the length with what is left -/
+theorem loop_last (H : Bytes → Bytes) (buf key : Bytes) (len done : Nat) (s : Bytes) (m : Msg)
+    (s' : Bytes) (m' : Msg) (mi' : Option Nat) (hlt : done < len)
+    (hstep : attrStep H buf key done (rdU16 s).1 (rdU16 (rdU16 s).2).1 (rdU16 (rdU16 s).2).2 m none = .next s' m' mi')
+    (hover : len ≤ done + (4 + (rdU16 (rdU16 s).2).1 + pad4 (rdU16 (rdU16 s).2).1)) :
+    loop H buf key len done s m none = some ⟨m', mi', none⟩ := by
+  rw [loop]
+  simp only [hlt, dite_true, Option.isSome_none, Bool.false_eq_true, false_and, if_false, hstep]
+  exact loop_done _ _ _ _ _ _ _ _ (by omega)
+
+theorem overrun_decodes (H : Bytes → Bytes) : decode H overrunPacket [] = some overrunResult := by
+  have h20 : ¬ overrunPacket.length < Stun.headerSize := by decide
+  have hs : (rdResize Msg.fresh.id Msg.fresh.id.length (rdU32 (rdU16 (rdU16 overrunPacket).2).2).2).2
+      = [0x00, 0x13, 0x03, 0xe8, 0x41, 0x42, 0x43, 0x44] := by decide
+  have hlen : (rdU16 (rdU16 overrunPacket).2).1 = 8 := by decide
+  unfold decode decodeX decodeFrom
+  simp only [h20, if_false, hs, hlen]
+  rw [loop_last H overrunPacket [] 8 0 _ _ [] overrunResult none (by decide) rfl (by decide)]
+  rfl
+
+theorem rdResize_length (old : Bytes) (n : Nat) (s : Bytes) : (rdResize old n s).1.length = n := by
+  simp only [rdResize, List.length_append, List.length_take, List.length_drop, zeros, List.length_replicate]
+  omega
+
+theorem overrun_length : overrunResult.data.map List.length = some 1000 := by
+  simp only [overrunResult, Option.map_some, rdResize_length]
+
+
+theorem attrStep_username (H : Bytes → Bytes) (buf key : Bytes) (done aLen : Nat) (s : Bytes) (m : Msg) (mi : Option Nat) :
+    attrStep H buf key done Stun.username aLen s m mi =
+      stepStr (fun m v => { m with username := some v }) aLen s m mi := by
+  unfold attrStep
+  simp only [Stun.priority, Stun.errorCode, Stun.useCandidate, Stun.channelNumber, Stun.dataAttr,
+    Stun.lifetime, Stun.nonce, Stun.realm, Stun.requestedTransport, Stun.reservationToken, Stun.software, Stun.username,
+    Nat.reduceEqDiff, if_false, if_true]
+
+theorem flipBit_append (a r : Bytes) (i : Nat) (h : i / 8 < a.length) : flipBit (a ++ r) i = flipBit a i ++ r := by
+  unfold flipBit
+  rw [List.set_append_left _ _ h]
+  congr 3
+  simp [List.getD_eq_getElem?_getD, List.getElem?_append_left h]
+
+/-- Flipping bit 6 of byte 23 (the low byte of USERNAME's length field: 4 becomes 68) of the packet encoded under
+key `[1]` gives a packet that decodes successfully under the same key: the announced length swallows
+MESSAGE-INTEGRITY, and nothing requires that attribute to be present. -/
+theorem bitflip_accepted (H : Bytes → Bytes) (hH : ∀ x, (H x).length = 20) :
+    (decode H (flipBit (encode H bitflipMsg [1] false) 190) [1]).isSome = true := by
+  have hid : bitflipMsg.id.length = 12 := by decide
+  rw [encode_key_nofp H hH bitflipMsg [1] (by decide) hid]
+  have hlenR := miAttr_len H hH bitflipMsg [1]
+  generalize miAttr H bitflipMsg [1] = R at hlenR
+  have hP : framed bitflipMsg ((body bitflipMsg).length + 24) =
+      [0, 1, 0, 32, 0x21, 0x12, 0xa4, 0x42, 0, 0, 0, 0, 0, 0, 0, 0, 0, 0, 0, 0, 0, 6, 0, 4, 0x61, 0x62, 0x63, 0x64] := by
+    decide
+  rw [hP, flipBit_append _ _ _ (by decide)]
+  have hF : flipBit [0, 1, 0, 32, 0x21, 0x12, 0xa4, 0x42, 0, 0, 0, 0, 0, 0, 0, 0, 0, 0, 0, 0, 0, 6, 0, 4, 0x61, 0x62, 0x63, 0x64] 190 =
+      [0, 1, 0, 32, 0x21, 0x12, 0xa4, 0x42, 0, 0, 0, 0, 0, 0, 0, 0, 0, 0, 0, 0, 0, 6, 0, 68, 0x61, 0x62, 0x63, 0x64] := by
+    decide
+  rw [hF]
+  unfold decode decodeX decodeFrom
+  simp only [List.cons_append, List.nil_append, List.length_cons, hlenR, Stun.headerSize]
+  simp only [rdU16, rdU32, rdResize]
+  simp [Msg.fresh, Stun.idSize, zeros]
+  rw [loop_last H _ [1] 32 0 _ _ _ _ _ (by decide)
+    (by show attrStep H _ [1] 0 Stun.username 68 _ _ none = _
+        rw [attrStep_username]; rfl) (by show 32 ≤ 0 + (4 + 68 + pad4 68); decide)]
+  rfl
+
+/-! ## where MESSAGE-INTEGRITY and FINGERPRINT sit in an encoded packet -/
+
+theorem drop_framed (m : Msg) (L : Nat) (r : Bytes) (hid : m.id.length = 12) :
+    (framed m L ++ r).drop (Stun.headerSize + (body m).length) = r := by
+  have : Stun.headerSize + (body m).length = (framed m L).length := by rw [framed_len m L hid]; rfl
+  rw [this, List.drop_left]
+
+/-- with a key, the four bytes at body offset `|body m|` are the MESSAGE-INTEGRITY header `00 08 00 14` -/
+theorem encode_mi_header (H : Bytes → Bytes) (hH : ∀ x, (H x).length = 20) (m : Msg) (hid : m.id.length = 12)
+    (k : Bytes) (hk : k ≠ []) (fp : Bool) :
+    ((encode H m k fp).drop (Stun.headerSize + (body m).length)).take 4 =
+      putU16 Stun.messageIntegrity ++ putU16 20 := by
+  cases fp with
+  | false => rw [encode_key_nofp H hH m k hk hid, drop_framed m _ _ hid]; rfl
+  | true => rw [encode_key_fp H hH m k hk hid, List.append_assoc, drop_framed m _ _ hid]; rfl
+
+/-- total length of an encoded packet -/
+theorem encode_length (H : Bytes → Bytes) (hH : ∀ x, (H x).length = 20) (m : Msg) (hid : m.id.length = 12)
+    (k : Bytes) (fp : Bool) :
+    (encode H m k fp).length =
+      Stun.headerSize + (body m).length + (if k = [] then 0 else 24) + (if fp then 8 else 0) := by
+  by_cases hk : k = []
+  · subst hk
+    cases fp with
+    | false => rw [encode_nokey_nofp H m hid, framed_len m _ hid]; simp [Stun.headerSize]
+    | true => rw [encode_nokey_fp H m hid, List.length_append, framed_len m _ hid, fpAttr_len]; simp [Stun.headerSize]
+  · cases fp with
+    | false =>
+      rw [encode_key_nofp H hH m k hk hid, List.length_append, framed_len m _ hid, miAttr_len H hH]
+      simp [Stun.headerSize, hk]
+    | true =>
+      rw [encode_key_fp H hH m k hk hid, List.length_append, List.length_append, framed_len m _ hid, miAttr_len H hH,
+        fpAttr_len]
+      simp [Stun.headerSize, hk]
+
+/-- the eight bytes of the FINGERPRINT attribute start with `80 28 00 04` -/
+theorem encode_fp_header (H : Bytes → Bytes) (hH : ∀ x, (H x).length = 20) (m : Msg) (hid : m.id.length = 12)
+    (k : Bytes) :
+    ((encode H m k true).drop (Stun.headerSize + (body m).length + (if k = [] then 0 else 24))).take 4 =
+      putU16 Stun.fingerprint ++ putU16 4 := by
+  by_cases hk : k = []
+  · subst hk
+    rw [encode_nokey_fp H m hid]
+    simp only [if_true, Nat.add_zero]
+    rw [drop_framed m _ _ hid]; rfl
+  · rw [encode_key_fp H hH m k hk hid]
+    simp only [hk, if_false]
+    have : Stun.headerSize + (body m).length + 24 = (framed m ((body m).length + 32) ++ miAttr H m k).length := by
+      rw [List.length_append, framed_len m _ hid, miAttr_len H hH]; rfl
+    rw [this, List.drop_left]; rfl
+
 end Qx.C14
